@@ -48,7 +48,11 @@ type seqState struct {
 	refFree  map[int]bool
 	extraKey map[int]bool
 	pending  []*subOp
-	phase    int // loader invocations of the current operation, in the model's order
+	// opProps / opKeys: properties that additionally own a state mismatch on the keys the current
+	// operation touched (a wrong deadline after a failed reload falsifies C11, not only C01/C12)
+	opProps []string
+	opKeys  map[int]bool
+	phase   int // loader invocations of the current operation, in the model's order
 }
 
 // subOp is one write / removal an operation performs on the model. Application is deferred until
@@ -137,6 +141,26 @@ func (s *seqState) applySeq(op *Op, res *Result) {
 	s.evStart, s.ldStart = len(r.Events), len(r.Loads)
 	s.pending = s.pending[:0]
 	s.phase = 0
+	s.opProps, s.opKeys = nil, map[int]bool{}
+	switch op.Kind {
+	case "load", "bulkget":
+		s.opProps = P("C10")
+		if cfg.withRefresh() {
+			s.opProps = P("C10", "C11")
+		}
+	case "refresh", "bulkrefresh":
+		s.opProps = P("C11")
+	case "set", "setifabsent", "compute", "computeifabsent", "computeifpresent", "invalidate", "invalidateall":
+		s.opProps = P("C06")
+	}
+	for _, kk := range keysOf(op) {
+		s.opKeys[kk] = true
+	}
+	if op.Load != nil {
+		for _, kk := range op.Load.Extra {
+			s.opKeys[kk] = true
+		}
+	}
 	base := P("C01")
 	keyOp := true
 	switch op.Kind {
@@ -629,7 +653,7 @@ func (s *seqState) matchEvents(op *Op, evs []Event) {
 			m.evictLo++
 			m.evictWLo += uint64(me.W)
 		default:
-			m.fail(P("C06", "C07"), "event.unsanctioned-removal", ev.K, "%s: key %d value %d removed with cause %s without being asked", op.Kind, ev.K, ev.V, causeStr(ev.Cause))
+			m.fail(withProp(P("C06", "C07"), s.opProps...), "event.unsanctioned-removal", ev.K, "%s: key %d value %d removed with cause %s without being asked", op.Kind, ev.K, ev.V, causeStr(ev.Cause))
 		}
 		delete(m.m, ev.K)
 		// an automatic removal clears the key's in-flight load: results of loads of this key that
@@ -754,21 +778,25 @@ func (s *seqState) compareState(keys int) {
 	check := func(k int) {
 		e, ok := r.C.GetEntryQuietly(k)
 		vis := m.visible(k)
+		own := P("C01")
+		if s.opKeys[k] {
+			own = withProp(own, s.opProps...)
+		}
 		switch {
 		case ok && vis == nil:
-			props := P("C01")
+			props := own
 			if m.expiredUnswept(k) != nil {
-				props = P("C01", "C03", "C12")
+				props = withProp(own, "C03", "C12")
 			}
 			m.fail(props, "state.extra", k, "cache holds key %d value %d (exp %d) at clock %d; model does not (model entry %+v)", k, e.Value, e.ExpiresAtNano, m.now, m.m[k])
 		case !ok && vis != nil:
-			props := P("C01")
+			props := own
 			if vis.ExpNever || vis.Exp-m.now > 0 {
-				props = P("C01", "C12")
+				props = withProp(own, "C12")
 			}
 			m.fail(props, "state.missing", k, "model holds key %d value %d (deadline %d, never=%v) at clock %d; cache does not and reported no removal", k, vis.V, vis.Exp, vis.ExpNever, m.now)
 		case ok:
-			s.cmpEntry(P("C01"), "state.entry", k, *view(e), vis)
+			s.cmpEntry(own, "state.entry", k, *view(e), vis)
 		}
 	}
 	for k := 0; k < keys; k++ {
@@ -858,6 +886,14 @@ func RunSeq(seed uint64, sc *SeqCase, gen *OpGen, nops int, stopAtFirst bool) *S
 			if len(m.viol) > 0 && stopAtFirst {
 				break
 			}
+		}
+		if cfg.Executor == "queued" {
+			r.RunQueued(-1, nil)
+			evs := r.Events[s.evStart:]
+			s.evStart = len(r.Events)
+			s.pending = s.pending[:0]
+			s.opProps, s.opKeys = nil, map[int]bool{}
+			s.matchEvents(&Op{Kind: "runexec"}, evs)
 		}
 		if len(m.viol) == 0 && sc.SaveLoad != nil {
 			s.saveLoad(w, sc)
